@@ -169,13 +169,14 @@ Mechanism(F, H, G, C, n, arg, fl) ==
 
 \* ------------------------------------------------------------------------- 3. the statement
 \* the file the documentation makes the source of context c ("" = none): naming table, '#' skipping,
-\* package form over module form, apps (all their files) only with a configuration entry
+\* package form over module form, apps only with a configuration entry (the other files of an app are
+\* reached through the app's main file: import closure, package membership)
 DocSource(F, H, G, c) ==
   LET one(p) == IF Vis(F, H, p) THEN p ELSE ""
       two(p, q) == IF Vis(F, H, p) THEN p ELSE IF Vis(F, H, q) THEN q ELSE ""           \* package form first
   IN CASE c = "file.a"        -> one("a.py")
        [] c = "apps.p"        -> IF G = 0 THEN "" ELSE two("apps/p/__init__.py", "apps/p.py")
-       [] c = "apps.p.h"      -> IF G = 0 THEN "" ELSE one("apps/p/h.py")
+       [] c = "apps.p.h"      -> one("apps/p/h.py")
        [] c = "modules.m"     -> two("modules/m/__init__.py", "modules/m.py")
        [] c = "modules.m.u"   -> one("modules/m/u.py")
        [] c = "modules.n"     -> one("modules/n.py")
@@ -234,27 +235,38 @@ SameButStart(x, y) == [x EXCEPT !.started = TRUE] = [y EXCEPT !.started = TRUE]
 RECURSIVE OkRel(_, _, _)
 OkRel(W, K, p) == \A t \in W.F[p].imps : TargetCtx(t) \in K \/ (Resolve(W, t) # "" /\ OkRel(W, K, Resolve(W, t)))
 
-NamedExists(F, H, G, arg) == arg \in CtxNames /\ Discover(F, H, G)[arg].path # ""
-MustDiscard(C, F, H, G, arg) ==
-  LET W == World(F, H, G) IN
-  IF arg = "" /\ ChangedCtx(C, W) = {} THEN {}
-  ELSE DiscardFix(C, OverCtx([c \in CtxNames |-> TransImports(C, c)]), Considered(C, W, arg, NamedExists(F, H, G, arg))) \cap LoadedIn(C)
+\* The documented discard set of one reload.
+\*   fix   = the considered contexts closed under package membership and (transitive) import of a changed module
+\*   must  = what has to be discarded.  For reload(NAME) "other changes are ignored": a package member /
+\*           importer whose own file no longer exists may, but need not, be discarded with NAME's package.
+\*   may   = what may be discarded: fix, plus - default reload - the loaded files of an app whose main file
+\*           exists but is not loaded (it failed to load earlier and is retried; retrying the package
+\*           re-executes its files; the statement is silent about files that cannot be executed).
+DiscardSets(C, W, d2f, arg) ==
+  LET N   == Considered(C, W, arg, arg \in CtxNames /\ d2f[arg].path # "")
+      fix == IF N = {} THEN {} ELSE DiscardFix(C, OverCtx([c \in CtxNames |-> TransImports(C, c)]), N) \cap LoadedIn(C)
+      retryRoots == { Root(r) : r \in { x \in AutoCtx \ LoadedIn(C) : W.doc[x] # "" } }
+      retry == IF arg = "" THEN { c \in LoadedIn(C) : IsPkgMember(c) /\ Root(c) \in retryRoots } ELSE {}
+  IN [N |-> N,
+      must |-> IF arg \in {"", "*"} THEN fix ELSE { c \in fix : c = arg \/ d2f[c].path # "" },
+      may |-> fix \cup retry]
+MustDiscard(C, F, H, G, arg) == DiscardSets(C, World(F, H, G), Discover(F, H, G), arg).must
 
 \* the whole post-condition of one reload step: pre contexts C (n = files executed before), post C2;
 \* the first failing clause is the verdict.  s1on = FALSE leaves out S1 (used by the acceptor for the steps
 \* that follow a step already rejected for "changed-not-discarded": a stale importer keeps an unloaded
 \* module alive, which S1 would report again at every later reload)
 PostClause(C, n, F, H, G, arg, C2, s1on) ==
-  LET W == World(F, H, G)
-      N == Considered(C, W, arg, NamedExists(F, H, G, arg))
-      D == IF N = {} THEN {} ELSE DiscardFix(C, OverCtx([c \in CtxNames |-> TransImports(C, c)]), N) \cap LoadedIn(C)
-      K == LoadedIn(C) \ D
-      X == { c \in LoadedIn(C2) : C2[c].inst > n }                                 \* executed by this reload
-      again == { c \in AutoCtx : (c \in D \/ c \in N \/ (arg \in {"", "*"} /\ c \notin LoadedIn(C)))
+  LET W  == World(F, H, G)
+      ds == DiscardSets(C, W, Discover(F, H, G), arg)
+      gone == Discarded(C, C2)
+      K  == LoadedIn(C) \ gone                                                     \* survivors
+      X  == { c \in LoadedIn(C2) : C2[c].inst > n }                                \* executed by this reload
+      again == { c \in AutoCtx : (c \in gone \/ c \in ds.N \/ (arg \in {"", "*"} /\ c \notin LoadedIn(C)))
                                  /\ W.doc[c] # "" /\ OkRel(W, K, W.doc[c]) }
       s1 == IF arg \in {"", "*"} /\ s1on THEN S1Clause(W, C2) ELSE "ok"
-  IN IF D \ Discarded(C, C2) # {} THEN "changed-not-discarded"
-     ELSE IF \E c \in K : ~SameButStart(C2[c], C[c]) THEN "untouched-touched"
+  IN IF ds.must \ gone # {} THEN "changed-not-discarded"
+     ELSE IF \E c \in LoadedIn(C) \ ds.may : ~SameButStart(C2[c], C[c]) THEN "untouched-touched"
      ELSE IF \E c \in X : ~Current(W, C2[c], c) THEN "executed-not-current"
      ELSE IF \E c \in X : C2[c].imports # { TargetCtx(t) : t \in F[C2[c].path].imps } \/ \E m \in C2[c].imports : C2[m] = Unl THEN "imports-not-loaded"
      ELSE IF \E c \in again : c \notin X THEN "not-reexecuted"
